@@ -12,6 +12,14 @@ pub const VALID_KINDS: &[&str] = &[
 pub const FILESET_KINDS: &[&str] = &["move_decl", "retarget_import", "create_file", "delete_file", "add_export_star", "foreign_content"];
 pub const DAMAGE_KINDS: &[&str] = &["truncate", "drop_line", "stray_token", "unbalance", "garbage"];
 
+/// One run in five uses a synthetic project (seeded type graph) instead of a corpus project.
+pub fn pick_project_owned(corpus: &[Project], rng: &mut Rng) -> Project {
+    if rng.chance(1, 5) {
+        return synthetic_project(rng.next());
+    }
+    pick_project(corpus, rng).clone()
+}
+
 pub fn pick_project<'a>(corpus: &'a [Project], rng: &mut Rng) -> &'a Project {
     // half of the runs on multi-file projects (cross-file state), half uniformly
     if rng.chance(1, 2) {
@@ -105,7 +113,7 @@ pub fn flavour_name(f: Flavour) -> &'static str {
 
 pub fn generate_history(corpus: &[Project], seed: u64, property: &str, flavour: Flavour) -> Run {
     let mut rng = Rng::new(seed);
-    let mut project = pick_project(corpus, &mut rng).clone();
+    let mut project = pick_project_owned(corpus, &mut rng);
     if project.files.len() == 1 && rng.chance(2, 3) || rng.chance(1, 8) {
         presplit(&mut project, &mut rng);
     }
@@ -312,7 +320,7 @@ pub fn generate_c10(corpus: &[Project], seed: u64, index: u64, k: usize) -> Run 
     let mut rng = Rng::new(seed);
     let n = corpus.len() as u64;
     // the first |corpus| runs walk the corpus as loaded; later runs sample edited states
-    let (mut project, edited) = if index < n { (corpus[index as usize].clone(), false) } else { (pick_project(corpus, &mut rng).clone(), true) };
+    let (mut project, edited) = if index < n { (corpus[index as usize].clone(), false) } else { (pick_project_owned(corpus, &mut rng), true) };
     let mut ops = vec![];
     if edited {
         if project.files.len() == 1 && rng.chance(1, 2) {
@@ -400,5 +408,134 @@ pub fn generate_c10(corpus: &[Project], seed: u64, index: u64, k: usize) -> Run 
         violation_class: String::new(),
         observed: serde_json::Value::Null,
         gen_faults: Default::default(),
+    }
+}
+
+// ---------------------------------------------------------------------------------------------
+// Synthetic projects: seeded type graphs (named types sharing recursive members, discriminated
+// unions, generics, utility types, unprintable leaves) spread over a few files. Workload only.
+// ---------------------------------------------------------------------------------------------
+pub fn synthetic_project(seed: u64) -> Project {
+    let mut rng = Rng::new(seed ^ 0x5EED_0F_7E57);
+    let n_types = rng.range(3, 8);
+    let n_files = rng.range(1, 3);
+    let names: Vec<String> = (0..n_types).map(|i| format!("T{}", i)).collect();
+    let file_of: Vec<usize> = (0..n_types).map(|_| rng.below(n_files)).collect();
+    let fname = |k: usize| if k == 0 { "/p/entry.ts".to_string() } else { format!("/p/m{}.ts", k) };
+    let poison = rng.chance(1, 3);
+    let mut bodies: Vec<String> = vec![];
+    let prim = ["string", "number", "boolean", "null", "\"lit\"", "42", "true", "string[]", "bigint"];
+    let mut enum_decl = String::new();
+    let use_enum = rng.chance(1, 4);
+    if use_enum {
+        enum_decl = "export enum Color { Red = \"red\", Green = \"green\" }\n".to_string();
+    }
+    let use_generic = rng.chance(1, 3);
+    for i in 0..n_types {
+        let kind = rng.below(10);
+        let r = |rng: &mut Rng| names[rng.below(n_types)].clone();
+        let body = if kind < 6 {
+            // object with fields
+            let nf = rng.range(1, 4);
+            let mut fields = vec![];
+            for f in 0..nf {
+                let opt = if rng.chance(1, 4) { "?" } else { "" };
+                let t = match rng.below(12) {
+                    0 | 1 => prim[rng.below(prim.len() - 1)].to_string(),
+                    2 => r(&mut rng),
+                    3 => format!("{}[]", r(&mut rng)),
+                    4 => format!("{} | null", r(&mut rng)),
+                    5 => format!("{} | {}", r(&mut rng), r(&mut rng)),
+                    6 => format!("[{}, number]", r(&mut rng)),
+                    7 => format!("Record<string, {}>", r(&mut rng)),
+                    8 => format!("Partial<{}>", r(&mut rng)),
+                    9 if use_generic => format!("Box<{}>", r(&mut rng)),
+                    10 if use_enum => "Color".to_string(),
+                    11 if poison && rng.chance(1, 2) => ["Date", "bigint", "Map<string, number>", "Set<string>"][rng.below(4)].to_string(),
+                    _ => prim[rng.below(prim.len() - 1)].to_string(),
+                };
+                // JSDoc on the referencing property: metadata lives on the reference site, the
+                // shared definition must not pick it up
+                let doc = if rng.chance(1, 3) { format!("/** doc {} of field {} of T{} */\n  ", rng.below(5), f, i) } else { String::new() };
+                fields.push(format!("  {}f{}{}: {};", doc, f, opt, t));
+            }
+            format!("{{\n{}\n}}", fields.join("\n"))
+        } else if kind < 8 {
+            // discriminated union of inline objects and / or named members
+            let nm = rng.range(2, 3);
+            let mut members = vec![];
+            for m in 0..nm {
+                let extra = if rng.chance(1, 2) { format!("; v: {}", r(&mut rng)) } else { format!("; n{}: number", m) };
+                members.push(format!("{{ kind: \"k{}\"{} }}", m, extra));
+            }
+            members.join(" | ")
+        } else if kind == 8 && i > 0 {
+            // only earlier types: a chain of intersections must not close a constructor-free cycle
+            format!("{} & {{ extra{}: string }}", names[rng.below(i)], i)
+        } else if kind == 8 {
+            format!("{{ only{}: string }}", i)
+        } else {
+            format!("Array<{} | string>", r(&mut rng))
+        };
+        bodies.push(body);
+    }
+    // an object type must break every reference cycle: make T0 an object if it is not
+    let mut files: BTreeMap<String, String> = BTreeMap::new();
+    let mut decls: Vec<Vec<String>> = vec![vec![]; n_files];
+    for i in 0..n_types {
+        let doc = if rng.chance(1, 5) { format!("/** documented type {} */\n", names[i]) } else { String::new() };
+        decls[file_of[i]].push(format!("{}export type {} = {};", doc, names[i], bodies[i]));
+    }
+    for k in 0..n_files {
+        let mut src = String::new();
+        if k == 0 {
+            src.push_str("import parse from \"./gen/parser\";\n");
+        }
+        // imports of every name defined elsewhere (unused ones are harmless)
+        for j in 0..n_files {
+            if j != k {
+                let ns: Vec<&String> = (0..n_types).filter(|i| file_of[*i] == j).map(|i| &names[i]).collect();
+                if !ns.is_empty() {
+                    let spec = if j == 0 { "./entry".to_string() } else { format!("./m{}", j) };
+                    src.push_str(&format!("import {{ {} }} from \"{}\";\n", ns.iter().map(|s| s.as_str()).collect::<Vec<_>>().join(", "), spec));
+                }
+            }
+        }
+        if k == 0 {
+            src.push_str(&enum_decl);
+            if use_generic {
+                src.push_str("export type Box<T> = { value: T; tag?: string };\n");
+            }
+        } else if use_enum || use_generic {
+            let mut v = vec![];
+            if use_enum {
+                v.push("Color");
+            }
+            if use_generic {
+                v.push("Box");
+            }
+            src.push_str(&format!("import {{ {} }} from \"./entry\";\n", v.join(", ")));
+        }
+        for d in &decls[k] {
+            src.push_str(d);
+            src.push('\n');
+        }
+        if k == 0 {
+            let mut keys: Vec<String> = names.iter().map(|n| format!("{}: {}", n, n)).collect();
+            if rng.chance(1, 2) {
+                keys.push(format!("Inline: {{ a: {}; b: {}[] }}", names[0], names[n_types - 1]));
+            }
+            src.push_str(&format!("parse.buildParsers<{{ {} }}>();\n", keys.join("; ")));
+        }
+        files.insert(fname(k), src);
+    }
+    Project {
+        id: format!("syn_{:08x}", (seed & 0xffff_ffff) as u32),
+        origin: "verif/sim/src/gen.rs synthetic_project".into(),
+        origin_kind: "synthetic".into(),
+        entry: "/p/entry.ts".into(),
+        settings: Settings { string_formats: vec![], number_formats: vec![] },
+        module: "esm".into(),
+        files,
     }
 }
